@@ -153,17 +153,59 @@ func C16(c *Ctx) {
 			r.Fatal("variant %s: parseExpr missing", vn)
 			continue
 		}
-		okA := false
-		if len(pe.Body.List) >= 2 {
-			inc, ok1 := pe.Body.List[0].(*ast.IncDecStmt)
-			is, ok2 := pe.Body.List[1].(*ast.IfStmt)
-			if ok1 && ok2 && nospace(inc.X) == "p.ExprCnt" && inc.Tok == token.INC && nospace(is.Cond) == "p.ExprCnt>p.maxExprCnt" && len(is.Body.List) == 1 {
-				if es, ok := is.Body.List[0].(*ast.ExprStmt); ok && nospace(es.X) == "panic(errMaxExprCnt)" {
-					okA = true
-				}
+		// on the normalised paths: before the first evaluator is entered the counter was incremented exactly once and
+		// then compared with the budget - within budget, or over it with the budget panic raised
+		okA := true
+		nDispatch := 0
+		var whyA []string
+		var evalNames []string
+		for _, f := range v.Funcs() {
+			if strings.HasPrefix(f.Name.Name, "parse") && f.Name.Name != "parseExpr" {
+				evalNames = append(evalNames, f.Name.Name)
 			}
 		}
-		r.Check(okA, "C16-a", "T.parseExpr:budget-check-first", vn, v.Where(pe.Pos()), "increment and compare before the dispatch", "parseExpr does not start with the budget increment and comparison")
+		for _, p := range c.vnorm(v).without(evalNames...).normPaths(pe) {
+			iDisp := p.evIndex("call", 0, func(s string) bool { return strings.HasPrefix(s, "p.parse") })
+			if iDisp < 0 {
+				continue
+			}
+			nDispatch++
+			pre := p[:iDisp]
+			nInc, iInc := 0, -1
+			for k, e := range pre {
+				if e.Kind == "set" && (e.Text == "p.ExprCnt++" || e.Text == "p.ExprCnt+=1" || e.Text == "p.ExprCnt=p.ExprCnt+1") {
+					nInc++
+					iInc = k
+				}
+			}
+			within, over := -1, -1
+			for k, e := range pre {
+				if e.Kind != "+" {
+					continue
+				}
+				switch e.Text {
+				case "p.ExprCnt<=p.maxExprCnt", "p.maxExprCnt>=p.ExprCnt":
+					within = k
+				case "p.ExprCnt>p.maxExprCnt", "p.maxExprCnt<p.ExprCnt":
+					over = k
+				}
+			}
+			switch {
+			case nInc != 1:
+				okA = false
+				whyA = append(whyA, fmt.Sprintf("%d increments of the counter before the dispatch", nInc))
+			case within > iInc:
+			case over > iInc && pre.evIndex("call", over, func(s string) bool { return s == "panic(errMaxExprCnt)" }) >= 0:
+			default:
+				okA = false
+				whyA = append(whyA, "an evaluator is entered without the counter having been compared with the budget after its increment ["+abbreviate(strings.Join(pre.facts(), " "))+"]")
+			}
+		}
+		if nDispatch < 10 {
+			okA = false
+			whyA = append(whyA, fmt.Sprintf("only %d dispatch paths found", nDispatch))
+		}
+		r.Check(okA, "C16-a", "T.parseExpr:budget-check-first", vn, v.Where(pe.Pos()), "increment and compare before the dispatch", "parseExpr does not charge and test the budget before it dispatches: "+strings.Join(uniq(whyA), "; "))
 		// the counter only ever grows: its single writer is the increment in parseExpr
 		var cw []string
 		for _, w := range fieldWrites(v) {
